@@ -309,6 +309,12 @@ func (e *Engine) callWrites(cc *ssa.CallCommon, w *WriteSet, fn *ssa.Function, v
 	case *ssa.Builtin:
 		switch f.Name() {
 		case "append", "copy":
+			if f.Name() == "append" && len(cc.Args) > 0 {
+				if c, ok := cc.Args[0].(*ssa.Const); ok && c.Value == nil {
+					// append(nil, xs...) always allocates: it writes no memory that existed before the call
+					return
+				}
+			}
 			if len(cc.Args) > 0 {
 				if st, ok := cc.Args[0].Type().Underlying().(*types.Slice); ok {
 					key, _ := e.memKey(st.Elem())
